@@ -33,6 +33,8 @@ class Likelihood:
         self.shared = shared_counter
         self.keep_log = True
         self.pointwise = pointwise   # vec mode evaluates row by row (bitwise the scalar function)
+        self.ro_buffer = False       # vec mode: evaluate into one preallocated buffer and return a READ-ONLY view of it
+        self._buf = None             # (a caller that owns its output memory and reuses it on the next call)
 
     # pickling support (dill pickles the sampler at checkpoint time)
     def __getstate__(self):
@@ -42,6 +44,7 @@ class Likelihood:
         d["by_x"] = {}
         d["by_id"] = {}
         d["order"] = []
+        d["_buf"] = None
         return d
 
     def __setstate__(self, d):
@@ -72,6 +75,15 @@ class Likelihood:
             if self.shared is not None:
                 with self.shared.get_lock():
                     self.shared.value += len(x)
+            if self.ro_buffer:
+                if self._buf is None or len(self._buf) < len(ll):
+                    self._buf = np.empty(max(len(ll), 4096))
+                self._buf[:] = -1.2345e5            # whatever the previous call left is gone
+                self._buf[:len(ll)] = ll
+                out = self._buf[:len(ll)]
+                out = out.view()
+                out.setflags(write=False)
+                return out
             return ll
         if self.delay is not None:
             self.delay(x)
